@@ -94,6 +94,74 @@ CLAIMED["C20"] = {
     "design_ref": "DESIGN.md section 4.4, 5 C20",
 }
 
+CLAIMED["C01"] = {
+    "level": "model_checking",
+    "text": "ByteBuf.tla models buffers as byte sequences under a capacity and cursors as (base, offset, len) views; TLC explores all call "
+            "sequences over 2 buffers x 2 cursors, capacities 0..3 and sizes at/next to SIZE_MAX/2 and SIZE_MAX (depth 4 quick, 6 thorough) "
+            "checking len<=cap, failure-changes-nothing, written-prefix-kept and capacity-monotone on every transition; TLC-generated and seeded "
+            "random scripts (exact-fit, one-short, zero-length, NULL views, huge sizes, self-append, write from a cursor into the destination) are "
+            "executed on the real API and ByteBufTrace.tla validates every result and the full observable state after every call "
+            "(len, cap, NULL flag, bytes [0,len), each cursor's base/offset/len, zeroing of released blocks for the secure variants).",
+    "note": "Symbolic size map (n, HALF+-d, MAX-d) assumes capacities <= 64; growth policy left open (cap' >= required); error codes checked only "
+            "where the header documents them; allocation-failure paths unreachable; code covered only along replayed executions (~2.1k quick / ~48k "
+            "thorough). Trusted: TLC, adapter projection (pointer arithmetic against known bases), ASan on exact-size blocks, vh_alloc release inspection. "
+            "F8 (advance_nospec at len SIZE_MAX>>1) found and fixed; its regression script runs in every check.",
+    "technique": "TLA+ spec (ByteBuf.tla) model-checked with TLC + trace validation of real executions (ByteBufTrace.tla)",
+    "design_ref": "DESIGN.md section 5 C01, 4.5",
+}
+CLAIMED["C07"] = {
+    "level": "model_checking",
+    "text": "TaskSched.tla states exactly-once invocation per schedule, never early, run-now FIFO then timed non-decreasing, tasks scheduled "
+            "inside a task wait for the next run_all, has_tasks equals the earliest pending time (0 / UINT64_MAX cases), clean_up cancels "
+            "everything. TLC checks these for all call sequences with re-entrant task functions on the bounded model (3 tasks, 3 times, <= 4 "
+            "schedules, nested schedule/cancel chains). The real aws_task_scheduler is driven by TLC-generated and random programs whose task "
+            "functions call back into the scheduler from inside the callback (schedule, re-schedule self, cancel incl. tasks in the current "
+            "batch); TLC validates the flat event stream (RunAllBegin / Invoked / nested calls / RunAllEnd, HasTasks, CleanUp).",
+    "note": "Bounded model; ~4k executions quick. Equal-time order and the order of CANCELED invocations in clean_up are open. The timed_list "
+            "overflow path is unreachable (allocation aborts). has_tasks/run_all/clean_up are never called from inside callbacks.",
+    "technique": "TLA+ spec (TaskSched.tla) model-checked with TLC + trace validation of real executions (TaskSchedTrace.tla)",
+    "design_ref": "DESIGN.md section 5 C07",
+}
+CLAIMED["C09"] = {
+    "level": "model_checking",
+    "text": "ArrayList.tla and LinkedList.tla are the reference sequences (static storage refuses growth, overflowing index refused, growth "
+            "factor open). TLC explores all operation sequences over two small lists / two node lists. The real aws_array_list (element sizes "
+            "{1,2,8,127,128,129,300}, initial allocation 0/1/3/4, static lists over exact-size malloc storage under ASan) and aws_linked_list "
+            "(6 nodes) are driven by TLC-generated and seeded random scripts; TLC validates after every call all elements, length, capacity, "
+            "and forward and backward walks with next/prev flags.",
+    "note": "Bounded model (<= 3 elements / 5 nodes quick). Code covered along ~5k replayed executions. Memory safety observed by ASan, not "
+            "proved. Leaks are not part of the statement: a shrink_to_fit leak on an empty dynamic list is recorded as a side finding only.",
+    "technique": "TLA+ specs (ArrayList.tla, LinkedList.tla) model-checked with TLC + trace validation of real executions",
+    "design_ref": "DESIGN.md section 5 C09",
+}
+CLAIMED["C14"] = {
+    "level": "model_checking",
+    "text": "LogChannel.tla transcribes the background channel (send critical section, background thread wait/snapshot/swap/write loop, "
+            "clean-up finished+notify+join) and TLC checks in every interleaving of 2-3 producers: each line written exactly once, per-"
+            "producer order, flushed at clean-up, nothing after, no deadlock, clean-up returns (fairness). The real pipeline logger (standard "
+            "formatter + foreground/background channel + recording writer) runs under the controlled scheduler (bounded-preemption "
+            "exploration of core scenarios + PCT/random schedules; level changes; 0-3 producer threads) and the fixed-buffer formatter and "
+            "no-alloc logger are called with buffers from 2 bytes to ample and messages from 0 to 60000 bytes, all filter x level pairs; TLC "
+            "validates every event against LogAbs.tla: level gate, exactly one complete newline-terminated NUL-free line per accepted call, "
+            "per-thread order, foreground writes synchronous on the caller's thread, cut lines inside the buffer and newline-terminated.",
+    "note": "SC serialised execution, no spurious wake-ups, bounded schedules; level changes only while no call is in progress; the line "
+            "analysis (whose line, complete?) is the adapter's projection. Found F1 (fixed).",
+    "technique": "TLA+ specs (LogChannel.tla impl-shaped, LogAbs.tla abstract) + TLC; controlled-scheduler executions validated by TLC (LogTrace.tla)",
+    "design_ref": "DESIGN.md section 4.4, 5 C14",
+}
+CLAIMED["C18"] = {
+    "level": "model_checking",
+    "text": "LinkedHash.tla is the ordered map with exactly-once destruction of displaced keys and values; Cache.tla the three policies over "
+            "it. TLC checks never-overfull, retains-the-inserted-entry and the policy victim against an independent use-history for all "
+            "operation sequences on the bounded model. The real aws_linked_hash_table and FIFO/LIFO/LRU aws_cache are driven by TLC-generated "
+            "and seeded random scripts with equal-but-distinct key objects, three hash functions and optional destructors; TLC validates the "
+            "iteration list, the count and the destructor counters after every call.",
+    "note": "Bounded model (3 classes x 2 key objects, max <= 2 quick / 3 thorough); ~3.1k executions quick; observation via the public "
+            "iteration list only (no extra finds on an LRU cache).",
+    "technique": "TLA+ specs (LinkedHash.tla, Cache.tla) model-checked with TLC + trace validation of real executions",
+    "design_ref": "DESIGN.md section 5 C18",
+}
+
 NOT_YET = "check not built yet (work in progress in this session; see DESIGN.md section 8 build order)"
 NOT_APPLICABLE = {}
 ALL = ["C%02d" % i for i in range(1, 21)]
